@@ -186,6 +186,23 @@ class FuncInfo:
         return self.node.lineno
 
     @property
+    def local_names(self) -> frozenset:
+        ln = self.__dict__.get("_local_names")
+        if ln is None:
+            names = set(self.params)
+            declared_global = set()
+            for n in body_walk(self.node):
+                if isinstance(n, ast.Name) and isinstance(n.ctx, (ast.Store, ast.Del)):
+                    names.add(n.id)
+                elif isinstance(n, (ast.Global, ast.Nonlocal)):
+                    declared_global.update(n.names)
+                elif isinstance(n, (ast.FunctionDef, ast.AsyncFunctionDef, ast.ClassDef)) and n is not self.node:
+                    names.add(n.name)
+            ln = frozenset(names - declared_global)
+            self.__dict__["_local_names"] = ln
+        return ln
+
+    @property
     def params(self) -> list[str]:
         a = self.node.args
         out = [x.arg for x in a.posonlyargs + a.args]
@@ -515,6 +532,12 @@ class Repo:
         """Resolve a bare identifier used in ``func`` (or at module level)."""
         f = func
         while f is not None:
+            if name not in f.local_imports and name in f.local_names:
+                # a parameter or assigned local shadows any module-level symbol of that name
+                q = f"{f.qualname}.{name}"
+                if q in module.functions:
+                    return ("func", module.functions[q])
+                return None
             if name in f.local_imports:
                 r = f.local_imports[name]
                 if r.symbol is None:
